@@ -47,6 +47,31 @@ def main(argv=None):
         ctx = Ctx(pid, args.tier, prog, quiet=args.quiet)
         mod = importlib.import_module("pcstatic.props." + pid)
         mod.run(ctx)
+        if args.tier == "thorough":
+            # deep pass: the same rules once more with loops unrolled over three pseudo-elements instead of two
+            # and four times as many random-interpretation trials; whatever it finds beyond the first pass counts
+            from . import termflow
+
+            old = termflow.K_ELEMS, termflow.TRIALS
+            termflow.K_ELEMS, termflow.TRIALS = 3, 256
+            try:
+                deep = Ctx(pid, args.tier, prog, quiet=True)
+                try:
+                    mod.run(deep)
+                    deep_error = None
+                except AnalysisError as e:
+                    deep_error = str(e)
+            finally:
+                termflow.K_ELEMS, termflow.TRIALS = old
+            seen = {(v["key"]["rule"], v["key"]["construct"], v["key"]["stmt"]) for v in ctx.violations}
+            extra = [v for v in deep.violations if (v["key"]["rule"], v["key"]["construct"], v["key"]["stmt"]) not in seen]
+            for v in extra:
+                ctx.fail(v["rule"], v["instance"] + " [deep pass]", v["where"], v["why"], construct=v["key"]["construct"], stmt=v["key"]["stmt"])
+            ctx.extra["deep_pass"] = {"unrolling": 3, "trials": 256, "obligations": len(deep.obligations), "discharged": sum(1 for o in deep.obligations if o["status"] == "discharged"), "new_violations": len(extra), "analysis_error": deep_error}
+            if not args.quiet:
+                print("  deep pass (3 pseudo-elements, 256 trials): %d obligations, %d discharged, %d new violations" % (len(deep.obligations), ctx.extra["deep_pass"]["discharged"], len(extra)))
+            if deep_error and not ctx.violations:
+                raise AnalysisError("deep pass: " + deep_error)
         if args.tier == "thorough" and not args.no_selftest:
             from . import selftest
 
